@@ -320,6 +320,7 @@ pub fn run(cfg: &Cfg) -> Outcome {
     }
     let skipped = acc.get("long_windows_skipped_after_budget") + acc.get("long_horizon_instants_skipped_after_budget");
     let tz_cov = crate::props::tzshape::run(crate::props::tzshape::Which::C08, cfg.quick(), &mut acc);
+    check_tz_extremes(None, &mut acc);
     let mut o = Outcome::new("model_checking", acc);
     o.cov("time_zone_contexts", tz_cov);
     o.exhaustive = true;
@@ -333,7 +334,115 @@ pub fn run(cfg: &Cfg) -> Outcome {
     o
 }
 
+/// Time-zone contexts at the ends of representable time and of the supported range: the statement's
+/// clauses with the wall-clock time of the instant computed here (UTC + offset, "before 1900" when
+/// it underflows, "after 9999" when it overflows) and the location-free evaluation as the reference
+/// for "the first instant from 1900-01-01T00:00 on at which the expression is not closed".
+pub fn check_tz_extremes(only: Option<(&str, &str)>, acc: &mut Acc) {
+    use chrono::{DateTime, Offset, TimeZone, Utc};
+    use chrono_tz::Tz;
+    use opening_hours::localization::TzLocation;
+    use opening_hours::Context;
+    let zones: [Tz; 6] = [chrono_tz::UTC, chrono_tz::America::New_York, chrono_tz::America::Adak, chrono_tz::Asia::Kolkata, chrono_tz::Pacific::Apia, chrono_tz::Pacific::Kiritimati];
+    let exprs = ["24/7", "3000", "1900 Jan 02-1900 Jan 05", "Mo-Fr 10:00-18:00", "1900 Jan 01 00:00-00:30 unknown", "9999 Dec 31 22:00-26:00"];
+    let min = DateTime::<Utc>::MIN_UTC.naive_utc();
+    let max = DateTime::<Utc>::MAX_UTC.naive_utc();
+    let d = |y, m, dd, h, mi| ymd(y, m, dd).and_hms_opt(h, mi, 0).unwrap();
+    let instants: Vec<NaiveDateTime> = vec![
+        min, min + Duration::minutes(1), min + Duration::hours(3), min + Duration::hours(14), min + Duration::days(2), d(-100000, 7, 1, 12, 30), d(1789, 7, 14, 12, 0), d(1899, 12, 31, 5, 0), d(1899, 12, 31, 23, 59), d(1900, 1, 1, 0, 0), d(1900, 1, 1, 12, 0),
+        d(9999, 12, 31, 12, 0), d(9999, 12, 31, 23, 59), d(10000, 1, 1, 0, 0), d(10000, 1, 1, 13, 0), max - Duration::days(2), max - Duration::hours(14), max - Duration::hours(3), max,
+    ];
+    let start = date_start();
+    for e in exprs {
+        let Ok(oh_naive) = OpeningHours::parse(e) else { continue };
+        // reference: location-free next_change from long before 1900 (C08's own location-free clause)
+        let first_open_naive = oh_naive.next_change(d(1500, 1, 1, 0, 0));
+        for tz in zones {
+            if only.map(|(oe, oz)| oe != e || oz != tz.name()).unwrap_or(false) {
+                continue;
+            }
+            let oh = oh_naive.clone().with_context(Context::default().with_locale(TzLocation::new(tz)));
+            for u in &instants {
+                acc.add("tz_extreme_points", 1);
+                acc.add("evaluations", 1);
+                let off = tz.offset_from_utc_datetime(u).fix().local_minus_utc() as i64;
+                // wall-clock position relative to the supported range
+                let (before, after) = match u.checked_add_signed(Duration::seconds(off)) {
+                    Some(w) => (w < start, w >= DATE_END),
+                    None => (off < 0, off > 0),
+                };
+                let t = Utc.from_utc_datetime(u).with_timezone(&tz);
+                let case = json!({"tz_extreme": true, "expr": e, "tz": tz.name(), "utc": fmt_dt(*u)});
+                let feats = vec!["tz_context".to_string()];
+                let head = format!("[{}] `{e}` at {}Z", tz.name(), fmt_dt(*u));
+                let r = catch(|| (oh.state(t), oh.next_change(t), oh.iter_range(t, tz.from_utc_datetime(&d(1900, 1, 3, 0, 0))).take(50).map(|r| (r.range.start.naive_utc(), r.range.end.naive_utc(), kind_code(r.kind))).collect::<Vec<_>>()));
+                let (st, nc, ivs) = match r {
+                    Ok(x) => x,
+                    Err(p) => {
+                        acc.violate(Violation::new("panic_in_tz_context", feats, case, format!("{head}: panicked: {} at {}", p.msg, p.loc)));
+                        continue;
+                    }
+                };
+                let mut ok = true;
+                if (before || after) && st != RuleKind::Closed {
+                    acc.violate(Violation::new("not_closed_outside_supported_range", feats.clone(), case.clone(), format!("{head}: state = {st:?} although the wall-clock time lies outside 1900..9999")));
+                    ok = false;
+                }
+                if after && nc.is_some() {
+                    acc.violate(Violation::new("next_change_beyond_date_end", feats.clone(), case.clone(), format!("{head}: next_change = {:?} from an instant at or after 10000-01-01", nc.map(|x| x.naive_utc()))));
+                    ok = false;
+                }
+                if let Some(x) = nc {
+                    let w = x.naive_utc() + Duration::seconds(tz.offset_from_utc_datetime(&x.naive_utc()).fix().local_minus_utc() as i64);
+                    if w >= DATE_END {
+                        acc.violate(Violation::new("next_change_beyond_date_end", feats.clone(), case.clone(), format!("{head}: next_change = {}Z, wall clock {} is at or beyond 10000-01-01", fmt_dt(x.naive_utc()), fmt_dt(w))));
+                        ok = false;
+                    }
+                }
+                if before {
+                    // expected: the location-free answer, as an instant of the zone (1900 wall-clock times
+                    // of these zones are unambiguous; anything else is left to C09)
+                    let exp = match first_open_naive {
+                        None => Some(None),
+                        Some(n) => match tz.from_local_datetime(&n) {
+                            chrono::LocalResult::Single(x) => Some(Some(x.naive_utc())),
+                            _ => None,
+                        },
+                    };
+                    if let Some(exp) = exp {
+                        let got = nc.map(|x| x.naive_utc());
+                        if got != exp {
+                            acc.violate(Violation::new("next_change_from_before_1900_wrong", feats.clone(), case.clone(), format!("{head} (wall clock before 1900): next_change = {:?}Z, the first instant from 1900-01-01T00:00 on at which the expression is not closed is {:?}Z", got.map(fmt_dt), exp.map(fmt_dt))));
+                            ok = false;
+                        }
+                    }
+                    // the window [t, 1900-01-03T00:00 zone time): first interval starts at t, contiguous, ends at the window end
+                    let to = d(1900, 1, 3, 0, 0);
+                    if *u < to {
+                        // (an instant whose wall-clock time is not representable is read as the earliest
+                        // representable one, so the first interval may start up to the zone offset later)
+                        let representable = u.checked_add_signed(Duration::seconds(off)).is_some();
+                        let good = !ivs.is_empty() && ivs[0].0 >= *u && (ivs[0].0 == *u || !representable) && ivs.windows(2).all(|w| w[0].1 == w[1].0) && ivs.iter().all(|i| i.0 < i.1) && (ivs.len() == 50 || ivs.last().unwrap().1 == to);
+                        if !good {
+                            acc.violate(Violation::new("window_from_before_1900_not_covered", feats.clone(), case.clone(), format!("{head}: iter_range(t, 1900-01-03T00:00Z) yields {:?}", ivs.iter().take(4).map(|i| (fmt_dt(i.0), fmt_dt(i.1), i.2)).collect::<Vec<_>>())));
+                            ok = false;
+                        }
+                    }
+                }
+                if ok {
+                    acc.add("traces_validated_against_impl", 1);
+                }
+            }
+        }
+    }
+}
+
 pub fn replay(cfg: &Cfg, case: &Value) -> Vec<Violation> {
+    if case.get("tz_extreme").is_some() {
+        let mut acc = Acc::new();
+        check_tz_extremes(Some((case.get("expr").and_then(|v| v.as_str()).unwrap_or(""), case.get("tz").and_then(|v| v.as_str()).unwrap_or(""))), &mut acc);
+        return acc.groups.into_values().flat_map(|g| g.examples).collect();
+    }
     if crate::props::tzshape::is_case(case) {
         return crate::props::tzshape::replay(crate::props::tzshape::Which::C08, case);
     }
